@@ -411,7 +411,7 @@ package jsonpatch
 //@   invariant arrays-untouched: forall a *partialArray {a.nodes} :: old(allocated(a) && a.nodes != nil) ==> a.nodes == old(a.nodes)
 
 //@ func (Patch).add
-//@   callees[C01,C08] Path, ensurePathExists, findObject, value, add, UnmarshalValid
+//@   callees[C01,C05,C08] Path, ensurePathExists, findObject, value, add, UnmarshalValid
 //@   requires args: doc != nil && options != nil && conOK(*doc)
 //@   requires op: opOK(op) && validOp(op) && opKind(op) == "add"
 //@   ensures[C04] container: err == nil ==> conOK(*doc)
@@ -421,11 +421,16 @@ package jsonpatch
 //@   bind v = value#2.0
 //@   let neg = options.SupportNegativeIndices
 //@   ensures[C08] missing-parent: reached(findObject#1) && con == nil ==> isMissing(err)
-//@   ensures[C01,C08] success-means-stored: err == nil ==> reached(add#1) || reached(UnmarshalValid#1)
+//@   ensures[C01,C05,C08] success-means-stored: err == nil ==> reached(add#1) || reached(UnmarshalValid#1)
 //@   ensures[C01] object-member-set: reached(findObject#1) && con != nil && isDoc(con) && docOf(con).obj != nil ==> err == nil && key in docOf(con).obj && docOf(con).obj[key] == v
 //@   ensures[C01] array-ok-iff: reached(findObject#1) && con != nil && isAry(con) ==> ((err == nil) <==> idxAddOK(key, at(findObject#1, len(aryOf(con).nodes)), neg))
 //@   ensures[C01] array-inserted: reached(findObject#1) && con != nil && isAry(con) && err == nil ==> len(aryOf(con).nodes) == at(findObject#1, len(aryOf(con).nodes)) + 1 && aryOf(con).nodes[idxAddVal(key, at(findObject#1, len(aryOf(con).nodes)))] == v
 //@   ensures[C01] value-is-patch-value: reached(findObject#1) && con != nil ==> v != nil && v.raw != nil && (op["value"] != nil ==> v.raw == op["value"]) && (op["value"] == nil ==> kind(val(*v.raw)) == KNull)
+//@   bind pErr = Path#1.1
+//@   bind uErr = UnmarshalValid#1.0
+//@   bind eErr = ensurePathExists#1.0
+//@   bind aErr = add#1.0
+//@   ensures[C01,C08,C14] failures-have-causes: err != nil ==> pErr != nil || (reached(UnmarshalValid#1) && uErr != nil) || (reached(ensurePathExists#1) && eErr != nil) || (reached(findObject#1) && con == nil) || (reached(add#1) && aErr != nil)
 
 //@ func (Patch).remove
 //@   callees[C01,C08] Path, findObject, remove
@@ -444,9 +449,12 @@ package jsonpatch
 //@   ensures[C08,C13] object-member-absent: reached(findObject#1) && con != nil && isDoc(con) && docOf(con).obj != nil && !at(findObject#1, key in docOf(con).obj) ==> (allow ==> err == nil) && (!allow ==> err != nil && isMissing(err)) && docOf(con).keys == at(findObject#1, docOf(con).keys)
 //@   ensures[C01,C13] array-element-removed: reached(findObject#1) && con != nil && isAry(con) && idxRefOK(key, at(findObject#1, len(aryOf(con).nodes)), neg) ==> err == nil && len(aryOf(con).nodes) == at(findObject#1, len(aryOf(con).nodes)) - 1
 //@   ensures[C13] array-element-absent: reached(findObject#1) && con != nil && isAry(con) && !idxRefOK(key, at(findObject#1, len(aryOf(con).nodes)), neg) ==> aryOf(con).nodes == at(findObject#1, aryOf(con).nodes) && (err == nil ==> allow && atoiOK(key))
+//@   bind pErr = Path#1.1
+//@   bind rErr = remove#1.0
+//@   ensures[C01,C08,C13] failures-have-causes: err != nil ==> pErr != nil || (reached(findObject#1) && con == nil && !allow) || (reached(remove#1) && rErr != nil)
 
 //@ func (Patch).replace
-//@   callees[C01,C08] Path, value, tryDoc, tryAry, findObject, get, set
+//@   callees[C01,C05,C08] Path, value, tryDoc, tryAry, findObject, get, set
 //@   requires args: doc != nil && options != nil && conOK(*doc)
 //@   requires op: opOK(op) && validOp(op) && opKind(op) == "replace"
 //@   ensures[C04] container: err == nil ==> conOK(*doc)
@@ -456,14 +464,19 @@ package jsonpatch
 //@   bind v = value#2.0
 //@   let neg = options.SupportNegativeIndices
 //@   ensures[C08] missing-parent: reached(findObject#1) && con == nil ==> isMissing(err)
-//@   ensures[C01,C08,C13] success-means-replaced: err == nil ==> reached(set#1) || reached(value#1)
+//@   ensures[C01,C05,C08,C13] success-means-replaced: err == nil ==> reached(set#1) || reached(value#1)
 //@   ensures[C01,C08,C13] missing-member: reached(findObject#1) && con != nil && key != "" && (isDoc(con) || isAry(con)) && (isDoc(con) ==> docOf(con).obj != nil) && !at(findObject#1, conHas(con, key, neg)) ==> err != nil && isMissing(err)
 //@   ensures[C01,C05] object-member-replaced: reached(findObject#1) && con != nil && isDoc(con) && at(findObject#1, key in docOf(con).obj) && key != "" ==> err == nil && docOf(con).obj[key] == v && docOf(con).keys == at(findObject#1, docOf(con).keys)
 //@   ensures[C01] array-element-replaced: reached(findObject#1) && con != nil && isAry(con) && key != "" && idxRefOK(key, at(findObject#1, len(aryOf(con).nodes)), neg) ==> err == nil && len(aryOf(con).nodes) == at(findObject#1, len(aryOf(con).nodes)) && aryOf(con).nodes[idxRefVal(key, len(aryOf(con).nodes))] == v
 //@   ensures[C01] value-is-patch-value: reached(value#2) ==> v != nil && v.raw != nil && (op["value"] != nil ==> v.raw == op["value"]) && (op["value"] == nil ==> kind(val(*v.raw)) == KNull)
+//@   bind pErr = Path#1.1
+//@   bind gErr = get#1.1
+//@   bind sErr = set#1.0
+//@   ensures[C01,C08,C13] failures-have-causes: err != nil && reached(findObject#1) ==> con == nil || (reached(get#1) && gErr != nil) || (reached(set#1) && sErr != nil)
+//@   ensures[C01,C08] whole-document-failures-have-causes: err != nil && !reached(findObject#1) ==> pErr != nil || reached(value#1)
 
 //@ func (Patch).move
-//@   callees[C01,C08] From, findObject, get, remove, Path, add
+//@   callees[C01,C05,C08] From, findObject, get, remove, Path, add
 //@   requires args: doc != nil && options != nil && conOK(*doc)
 //@   requires op: opOK(op) && validOp(op) && opKind(op) == "move"
 //@   ensures[C04] container: conOK(*doc) && *doc == old(*doc)
@@ -475,12 +488,19 @@ package jsonpatch
 //@   let neg = options.SupportNegativeIndices
 //@   ensures[C08] missing-parent: reached(findObject#1) && con != nil || !reached(findObject#1) || isMissing(err)
 //@   ensures[C08] missing-destination: reached(findObject#2) && dst == nil ==> isMissing(err)
-//@   ensures[C01,C08,C13] success-means-moved: err == nil ==> reached(add#1)
+//@   ensures[C01,C05,C08,C13] success-means-moved: err == nil ==> reached(add#1)
 //@   ensures[C01,C13] missing-source: reached(findObject#1) && con != nil && key != "" && (isDoc(con) ==> docOf(con).obj != nil) && (isDoc(con) || isAry(con)) && !at(findObject#1, conHas(con, key, neg)) ==> err != nil
 //@   ensures[C01,C08] removed-before-resolving-object: reached(findObject#2) && isDoc(con) && key != "" ==> pre(findObject#2, !(key in docOf(con).obj))
 //@   ensures[C01,C08] removed-before-resolving-array: reached(findObject#2) && isAry(con) && key != "" ==> pre(findObject#2, len(aryOf(con).nodes)) == at(findObject#1, len(aryOf(con).nodes)) - 1
 //@   ensures[C01] object-destination: reached(findObject#2) && dst != nil && isDoc(dst) && docOf(dst).obj != nil && key != "" ==> err == nil && dstKey in docOf(dst).obj && docOf(dst).obj[dstKey] == at(findObject#1, conAt(con, key))
 //@   ensures[C01] array-destination: reached(findObject#2) && dst != nil && isAry(dst) && err == nil && key != "" ==> aryOf(dst).nodes[idxAddVal(dstKey, at(findObject#2, len(aryOf(dst).nodes)))] == at(findObject#1, conAt(con, key))
+//@   bind fErr = From#1.1
+//@   bind fromS = From#1.0
+//@   bind gErr = get#1.1
+//@   bind rErr = remove#1.0
+//@   bind pErr = Path#1.1
+//@   bind aErr = add#1.0
+//@   ensures[C01,C08,C13] failures-have-causes: err != nil ==> fErr != nil || fromS == "" || (reached(findObject#1) && con == nil) || (reached(get#1) && gErr != nil) || (reached(remove#1) && rErr != nil) || (reached(Path#1) && pErr != nil) || (reached(findObject#2) && dst == nil) || (reached(add#1) && aErr != nil)
 
 //@ func (Patch).test
 //@   callees[C01,C08] Path, value, equal, findObject, get, isNull
@@ -500,9 +520,12 @@ package jsonpatch
 //@   ensures[C01,C08] mismatch-is-test-failed: reached(findObject#1) && con != nil && key != "" && at(findObject#1, conHas(con, key, neg) && childIsNull(conAt(con, key))) && !valueIsNull(op) ==> isTestFailed(err)
 //@   ensures[C08] null-vs-value: reached(findObject#1) && con != nil && key != "" && at(findObject#1, conHas(con, key, neg) && !childIsNull(conAt(con, key))) && valueIsNull(op) ==> isTestFailed(err)
 //@   ensures[C08,C13] bad-index-is-not-test-failed: reached(findObject#1) && con != nil && isAry(con) && key != "" && !at(findObject#1, conHas(con, key, neg)) ==> err != nil && !isTestFailed(err)
+//@   bind pErr = Path#1.1
+//@   bind gErr = get#1.1
+//@   ensures[C01,C08,C13] failures-have-causes: err != nil ==> pErr != nil || isTestFailed(err) || (reached(findObject#1) && con == nil) || (reached(get#1) && gErr != nil)
 
 //@ func (Patch).copy
-//@   callees[C01,C08] From, findObject, get, Path, deepCopy, NewAccumulatedCopySizeError, add
+//@   callees[C01,C05,C08] From, findObject, get, Path, deepCopy, NewAccumulatedCopySizeError, add
 //@   callsite[C01] deepCopy#1 whole-document-source-is-the-current-document: from == "" ==> arg_src != nil && ((isDoc(*doc) && arg_src.which == eDoc && arg_src.doc == docOf(*doc)) || (isAry(*doc) && arg_src.which == eAry && arg_src.ary == aryOf(*doc)))
 //@   requires args: doc != nil && options != nil && accumulatedCopySize != nil && conOK(*doc)
 //@   requires op: opOK(op) && validOp(op) && opKind(op) == "copy"
@@ -521,7 +544,7 @@ package jsonpatch
 //@   let neg = options.SupportNegativeIndices
 //@   ensures[C08] missing-parent: reached(findObject#1) && con == nil ==> isMissing(err) && !isCopyLimit(err)
 //@   ensures[C08] missing-destination: reached(findObject#2) && dst == nil ==> isMissing(err) && !isCopyLimit(err)
-//@   ensures[C01,C08,C13] success-means-copied: err == nil ==> reached(add#1)
+//@   ensures[C01,C05,C08,C13] success-means-copied: err == nil ==> reached(add#1)
 //@   ensures[C12] accumulated: reached(deepCopy#1) && dcErr == nil ==> *accumulatedCopySize == old(*accumulatedCopySize) + sz
 //@   ensures[C12] not-accumulated: !reached(deepCopy#1) || dcErr != nil ==> *accumulatedCopySize == old(*accumulatedCopySize)
 //@   ensures[C08,C12] limit-iff: isCopyLimit(err) <==> (reached(deepCopy#1) && dcErr == nil && limit > 0 && *accumulatedCopySize > limit)
@@ -530,6 +553,12 @@ package jsonpatch
 //@   ensures[C01] object-member-copied: reached(deepCopy#1) && dcErr == nil && !isCopyLimit(err) && isDoc(dst) && docOf(dst).obj != nil ==> err == nil && dstKey in docOf(dst).obj && docOf(dst).obj[dstKey] == cp
 //@   ensures[C01] array-element-copied: reached(deepCopy#1) && dcErr == nil && !isCopyLimit(err) && isAry(dst) && err == nil ==> aryOf(dst).nodes[idxAddVal(dstKey, at(deepCopy#1, len(aryOf(dst).nodes)))] == cp
 //@   ensures[C01,C09] independent-duplicate: reached(deepCopy#1) && dcErr == nil && cp != nil ==> fresh(cp) && fresh(cp.raw) && cp.which == eRaw
+//@   bind fErr = From#1.1
+//@   bind fromS = From#1.0
+//@   bind gErr = get#1.1
+//@   bind pErr = Path#1.1
+//@   bind aErr = add#1.0
+//@   ensures[C01,C08,C13] failures-have-causes: err != nil ==> fErr != nil || (fromS == "" && !reached(Path#1)) || (reached(findObject#1) && con == nil) || (reached(get#1) && gErr != nil) || (reached(Path#1) && pErr != nil) || (reached(findObject#2) && dst == nil) || (reached(deepCopy#1) && dcErr != nil) || isCopyLimit(err) || (reached(add#1) && aErr != nil)
 
 // ---- structural equality of two nodes (C06) ----
 
@@ -619,7 +648,7 @@ package jsonpatch
 // state of the pooled scanner, and memory they allocate - in particular no element of a byte slice and no map,
 // slice or raw message of a Patch that existed before the call (frame obligations, class F).
 //@ func (Patch).ApplyIndentWithOptions
-//@   callees[C01,C08] Valid, newLazyNode, nextByte, UnmarshalValid, Kind, add, remove, replace, move, test, copy, MarshalEscaped, Indent
+//@   callees[C01,C05,C08,C15] Valid, newLazyNode, nextByte, UnmarshalValid, Kind, add, remove, replace, move, test, copy, MarshalEscaped, Indent
 //@   callsite[C01,C08] add#1 add-operations-are-applied-by-add-in-patch-order: opKind(op) == "add" && arg_op == op && op == p[rangeindex + 1]
 //@   callsite[C01,C08] remove#1 remove-operations-are-applied-by-remove-in-patch-order: opKind(op) == "remove" && arg_op == op && op == p[rangeindex + 1]
 //@   callsite[C01,C08] replace#1 replace-operations-are-applied-by-replace-in-patch-order: opKind(op) == "replace" && arg_op == op && op == p[rangeindex + 1]
